@@ -30,6 +30,9 @@ TRANSLATOR_PARTS += ["melody"]
 # Props/C04_GenAlignment.lean proves the generated definitions equal to the hand-written alignment model for all timestamp
 # lists; suite `gen_alignment` runs them (driver op `gen.alignment`) against the real functions
 TRANSLATOR_PARTS += ["validators", "alignment"]
+# ... and the `evaluate` glue of onset / tempo (translate/evalglue.py -> lean/MirGen/EvalGlue.lean, over the metric definitions
+# of the `evglue` part; Props/C04_GenEvalGlue.lean; suite `gen_evalglue`)
+TRANSLATOR_PARTS += ["evalglue"]
 _here = os.path.dirname(os.path.abspath(__file__))
 _props = os.path.join(os.path.dirname(os.path.dirname(_here)), "lean", "MirProofs", "Props")
 LEAN_MODULES = sorted("MirProofs.Props." + os.path.basename(f)[:-5]
@@ -464,6 +467,31 @@ def suite_gen_alignment(rng, tier, shard, nshards):
 
 
 SUITES["gen_alignment"] = suite_gen_alignment
+
+
+def suite_gen_evalglue(rng, tier, shard, nshards):
+    """the existing `onset.evaluate` / `tempo.evaluate` streams (window / tol given or defaulted, faults) asked of the GENERATED
+    glue (lean/MirGen/EvalGlue.lean, driver op `gen.evalglue`)"""
+    import core
+    import proto
+    from suites import onset as OS, tempo as TS
+    try:
+        outs = core.run_driver(["0 gen.evalglue %s\n" % proto.enc("?")])
+        avail = proto.dec_line(outs[0])[1]
+        avail = set(avail) if isinstance(avail, list) else set()
+    except Exception:  # noqa: BLE001
+        avail = set()
+    for gen_suite in (OS.SUITES["onset.evaluate"], TS.SUITES["tempo.evaluate"]):
+        for j, c in enumerate(gen_suite(rng, tier, shard, nshards)):
+            if tier == "quick" and j >= 400:
+                break
+            if c.op in avail:
+                info = dict(c.info or {}, op="gen.evalglue", fn=c.op)
+                yield Case("gen.evalglue", [c.op] + list(c.args), c.call, tol=c.tol, tag="gen " + c.tag, info=info,
+                           nontrivial=c.nontrivial, post=c.post)
+
+
+SUITES["gen_evalglue"] = suite_gen_evalglue
 
 CHECKERS = {"documented_defaults": check_defaults}
 ORACLES = {"documented_defaults": gen_defaults}
